@@ -339,6 +339,9 @@ func (p *Prog) effectsOfEvent(f *Func, ev *Event) []*Eff {
 				for i, a := range ne.Args[1:] {
 					cm[fmt.Sprintf("P%d", i)] = a
 				}
+				if len(ne.Args[0].A) == 2 {
+					cm["Precv"] = ne.Args[0].A[1] // bound method value
+				}
 				for _, ce2 := range cs.Effs {
 					n2 := instantiate(ce2, cm, cl.Name, ev)
 					if n2 == nil {
